@@ -163,7 +163,8 @@ class Ref:
                     self._steps(rec)
                     results.append(f"val:{cid[1]}")
                 else:
-                    results.append(self._steps(rec))
+                    rec.value = self._steps(rec)
+                    results.append(rec.value)
             except Ambiguous:
                 raise
             except Exception:
@@ -223,12 +224,15 @@ class Ref:
         verdict = True
         raising = []
         for (e, expected) in entries:
-            if e.startswith("@") or IDENT.match(e):
-                nm = e.lstrip("@")
-                provs = ["fn"] if e.startswith("@") else self.m.providers_of(nm)
+            if e[0] in "@%" or IDENT.match(e):
+                nm = e.lstrip("@%")
+                provs = ["fn"] if e[0] == "@" else ["sm"] if e[0] == "%" else \
+                    self.m.providers_of(nm)
                 for p in provs:
                     v = self._gval(p, nm)
-                    g.required[(p, nm)] = v
+                    # an `unless` name with several providers: whether every provider has to be
+                    # read is decided by the verdict (C12), not by read-completeness
+                    (g.required if (expected or len(provs) == 1) else g.optional)[(p, nm)] = v
                     if isinstance(v, tuple) and v and v[0] == "raise":
                         raising.append(v)
                         continue
@@ -277,8 +281,8 @@ class Ref:
         out = []
         seen = set()
         for nm in names:
-            if nm.startswith("@"):
-                cid = ("fn", nm[1:])
+            if nm.startswith("@") or nm.startswith("%"):
+                cid = ("fn" if nm[0] == "@" else "sm", nm[1:])
                 if cid not in seen:
                     seen.add(cid)
                     out.append(cid)
